@@ -193,6 +193,11 @@ def run(res, programs, tier):
         _r15_3(res, P, cfgname, F)
         _r15_4(res, P, cfgname)
         _r15_4b(res, P, cfgname)
+        if "dashu_int" in P.units:
+            from . import c17b
+            res.rule("R17.7", "(shared with C17) Repr::clone_from: the final sign fix-up reads the current sign of self")
+            res.rule("R17.8", "(shared with C17) Repr::clone_from frees or reuses the destination buffer on every path")
+            c17b._r17_8c(res, P, cfgname)
         if "dashu_float" in P.units:
             _r15_6(res, P, cfgname)
         if "dashu_float" in P.units:
